@@ -515,6 +515,35 @@ def t8_substitutes_are_members(ctx: Ctx):
                       f'`{sub}` never reaches the membership test of the format: FixedContext(True, 0, 8, {sub}=Float(1000)) rounds {what} to 1000, outside [-128, 127]')
 
 
+def t9_substitute_refusals(ctx: Ctx):
+    """The other side of T8: a constructor refuses a substitute for what the substitute *is* (not representable, a NaN
+    where the format has none), never for the configuration alone.  In the extended-float constructor every `raise` inside
+    the block that examines `nan_value` / `inf_value` stands under a test that asks something of that value -- one that
+    does not refuses every substitute of some configuration (every `inf_value` of a format without NaN was)."""
+    from ..dataflow import guards_of, parent_map
+    rel, cls = CTXDIR + 'efloat.py', 'EFloatContext'
+    init = ctx.repo.methods(rel, cls, inherited=False).get('__init__')
+    if init is None:
+        raise ShapeError('EFloatContext.__init__ not found')
+    fn = init[2]
+    parents = parent_map(fn)
+    n = 0
+    for sub in ('nan_value', 'inf_value'):
+        blocks = [s for s in ast.walk(fn) if isinstance(s, ast.If) and norm(s.test) == f'{sub} is not None']
+        if not blocks:
+            raise ShapeError(f'EFloatContext.__init__: the block examining {sub} was not found')
+        for b in blocks:
+            for r in [x for x in ast.walk(b) if isinstance(x, ast.Raise)]:
+                n += 1
+                tests = [g for g, arm in guards_of(fn, r, parents) if any(x is g for x in ast.walk(b))]
+                asks = [g for g in tests if g is not b.test and any(isinstance(x, ast.Name) and x.id == sub for x in ast.walk(g))]
+                ctx.check(bool(asks), rel, r, f'{cls}.__init__', f'`{norm(r)[:70]}` is raised for something the {sub} is',
+                          f'raised under {[norm(g)[:50] for g in tests if g is not b.test] or "no test"}, none of which looks at `{sub}`: every substitute is refused in that configuration -- '
+                          'EFloatContext(2, 4, False, NONE, 0, inf_value=Float(6)) "Cannot set Inf value to NaN"')
+    if n < 4:
+        raise ShapeError(f'only {n} refusals of substitutes found in EFloatContext.__init__')
+
+
 def t7_saturation_value(ctx: Ctx):
     """An overflow under SATURATE (or under OVERFLOW where the mode does not round to the infinity) becomes the end of
     the range on its side -- for either sign.  The public `maxval(True)` refuses a range without negative values (there
@@ -1218,6 +1247,7 @@ RULES = [
     Rule('C01.P1', 'every path from an out-of-range test to a return sets overflow and inexact on the returned value', p1_truthful_flags, 4, 'P'),
     Rule('C01.P5', 'no context returns a finite non-zero operand without going through the rounding call: the neighbour is chosen in one place, for all eight modes (= C17.P3)',
          lambda ctx: __import__('sa.props.c17', fromlist=['p3_round_reached']).p3_round_reached(ctx), 15, 'P'),
+    Rule('C01.T9', 'the extended-float constructor refuses a substitute only for what the substitute is', t9_substitute_refusals, 4, 'T'),
     Rule('C01.T8', 'a NaN / infinity substitute is accepted by a constructor only if the format built from the same parameters holds it', t8_substitutes_are_members, 8, 'T,S'),
     Rule('C01.T7', 'the value an overflow saturates to is defined for both signs (a range without negative values saturates to zero)', t7_saturation_value, 2, 'T'),
     Rule('C01.P4', 'the flags of a result are those of this rounding: a re-wrapped value comes out of the rounding call, or the result states its flags', p4_flags_of_this_rounding, 8, 'P'),
@@ -1247,6 +1277,9 @@ _EF = CTXDIR + 'efloat.py'
 _EXP = CTXDIR + 'exponential.py'
 
 MUTANTS = [
+    Mutant('every-infinity-substitute-refused-without-nan', CTXDIR + 'efloat.py', "                if inf_value.isnan:\n                    if nan_kind == EFloatNanKind.NONE:\n                        raise ValueError(f'Cannot set Inf value to NaN when NaNs are disabled: {inf_value}')\n",
+           "                if nan_kind == EFloatNanKind.NONE:\n                    raise ValueError(f'Cannot set Inf value to NaN when NaNs are disabled: {inf_value}')\n", 'C01.T9',
+           'finding F145 before its repair: EFloatContext(2, 4, False, NONE, 0, inf_value=Float(6)) is refused for every inf_value'),
     Mutant('fixed-substitute-checked-for-fineness-only', CTXDIR + 'mpb_fixed.py', "        for what, sub, enabled in (('NaN', nan_value, enable_nan), ('Inf', inf_value, enable_inf)):\n            if sub is not None and not enabled and sub.is_finite() and not self._fmt.representable_in(sub):\n                raise ValueError(f'Rounding {what} to unrepresentable value')\n",
            "", 'C01.T8', 'finding F129 before its repair: FixedContext(True, 0, 8, inf_value=Float(1000)) rounds an infinity to 1000'),
     Mutant('fixed-substitute-range-checked-for-nan-only', CTXDIR + 'mpb_fixed.py', "        for what, sub, enabled in (('NaN', nan_value, enable_nan), ('Inf', inf_value, enable_inf)):", "        for what, sub, enabled in (('NaN', nan_value, enable_nan),):", 'C01.T8'),
